@@ -107,7 +107,7 @@ func famRegs3(r *rng) []string {
 		fmt.Sprintf("func cd(n){ for n > 0 { n-- ; for j = n { if j == 2 { return [n, j] } } }; n }; println(cd(%d), cd(1))", 3+r.intn(4)),
 		fmt.Sprintf("func gcd(a, b){ for b != 0 { t = b; b = a %% b; a = t }; a }; println(gcd(%d, %d), gcd(17, 5))", 12+r.intn(40), 4+r.intn(20)),
 		fmt.Sprintf("func dg(n){ r = []; for i = n { for j = i { for k = j { r = r + [i * 100 + j * 10 + k] } } }; r }; println(dg(%d))", 2+r.intn(4))))
-	// "any loop variable name": names that are not read from the variable (repo fix 4fb7d30: self, info and the names of
+	// "any loop variable name": names that are not read from the variable (repo fix d086181: self, info and the names of
 	// extension functions were kept in registers, so the name meant the integer only with registers on)
 	res = append(res, pickS(r,
 		"for self = 3 { print(sv(catch(self))) }; println()",
@@ -117,13 +117,13 @@ func famRegs3(r *rng) []string {
 		"func ri(int){ int }; println(sv(catch(ri(3))), sv(catch(int(2.5))))",
 		"func rn(a, self, b){ for j = b { a = a + j }; [a, b] }; println(rn(1, 2, 3))",
 		"for abs = 2 { for max = 2 { print(1) } }; println(sv(catch(abs(-2))))",
-		// the name of the function being run (repo fix 5c2e500)
+		// the name of the function being run (repo fix 07c7aea)
 		"func fo(){ for fo = 3 { print(len(sv(catch(fo + 1)))) }; 1 }; println(fo())",
 		"func fp(n){ s = 0; for fp = n { s = s + 1 }; s }; println(fp(3), fp(2))",
-		// quote() and eval() of the variable (repo fix 7345903)
+		// quote() and eval() of the variable (repo fix 5c922e6)
 		"for i = 2 { println(quote(i + 1)) }; func fq(n){ quote(n * 2) }; println(fq(3))",
 		"func fe(n){ eval(\"n + 1\") }; println(sv(catch(fe(3)))); for i = 2 { print(sv(catch(eval(\"i * 2\")))) }; println()",
-		// two parameters of one name: the last one wins (repo fix 16bb0de)
+		// two parameters of one name: the last one wins (repo fix a353195)
 		"func dp(a, a){ a }; println(dp(1, 2), ((x, y, x) => [x, y])(1, 2, 3))",
 		"func dq(a, b, a, b){ a = a + b; [a, b] }; println(dq(1, 2, 3, 4), dq(1, \"s\", 3, 4), dq(1, 2, \"t\", 4))"))
 	// a long session of top-level loops: every exit, more than 8 in a row, one input each or all in one
@@ -167,7 +167,7 @@ var opShapes = []string{
 	"rest(%L) + rest(%R)", "print(%L, %R)", "println(%L)", "error(%L, %R)", "catch(%L)", "catch(%L).value + %R", "del(%L)", "func(a){a}(%L, %R)", "func(a, ..){[a, ..]}(%L, %R)",
 	"func(){return %L}() == %R", "x9 = y9 = %L", "(x => x)(%L)(%R)", "%L.k", "%L.%R", "{%L: 1}[%R]", "[%L][%R]", "min(%L, %R)", "%L * %R * %L", "%L + %R + %L", "%L = %R", "%L := %R",
 	"for x9 = [%L, %R] {x9}", "str9 = \"\" + %L", "%L && %R || %L", "unquote(%L)", "quote(%L) == quote(%R)",
-	// a container stored inside itself (fatal stack overflow before repo fixes 5b056c2 / 9255529)
+	// a container stored inside itself (fatal stack overflow before repo fixes 95497ec / 11369d7)
 	"v9 = %L; v9[0] = v9; v9 == v9", "v9 = %L; v9[v9] = %R; v9", "v9 = %L; v9.k = v9; v9", "v9 = %L; w9 = [v9]; v9[-1] = w9; v9 == w9",
 	"v9 = %L; v9 = v9 + %R; p9 = v9 + 1; q9 = v9 + [p9]; [q9 == p9, q9]", "v9 = %L; v9[%R] = [v9, {1: v9}]; v9",
 }
